@@ -35,6 +35,10 @@ SCALE_BITS = 400
 FILL = 1
 
 
+class Harness(Exception):
+    """The harness lost control of the coins (never a property verdict): reported as HARNESS-ERROR, exit 2."""
+
+
 # ------------------------------------------------------------------ two-stream coin explorer
 def explore2(run, stats, rootA=(), rootB=(), max_a=None, max_leaves=30000000):
     """Stateless DFS over every pair of coin strings (stream A, stream B) the code consumes.
@@ -54,7 +58,7 @@ def explore2(run, stats, rootA=(), rootB=(), max_a=None, max_leaves=30000000):
     na, nb, res = run(rootA, rootB)
     st['runs'] += 1
     if na < len(rootA) or nb < len(rootB):
-        raise RuntimeError('harness: root run consumed (%d,%d) coins, fewer than the forced prefix (%d,%d)' % (na, nb, len(rootA), len(rootB)))
+        raise Harness('root run consumed (%d,%d) coins, fewer than the forced prefix (%d,%d)' % (na, nb, len(rootA), len(rootB)))
     root_mass = one >> (len(rootA) + len(rootB))
     if max_a is not None and na > max_a:
         st['truncated'] += 1
@@ -71,7 +75,7 @@ def explore2(run, stats, rootA=(), rootB=(), max_a=None, max_leaves=30000000):
         st['max_a'] = max(st['max_a'], na)
         st['max_b'] = max(st['max_b'], nb)
         if st['leaves'] > max_leaves:
-            raise RuntimeError('harness: coin tree larger than max_leaves=%d' % max_leaves)
+            raise Harness('coin tree larger than max_leaves=%d' % max_leaves)
         yield a, b, res
         children = [(a[:i] + (1 - FILL,), pb) for i in range(len(pa), na)]
         children += [(a, b[:j] + (1 - FILL,)) for j in range(len(pb), nb)]
@@ -79,14 +83,14 @@ def explore2(run, stats, rootA=(), rootB=(), max_a=None, max_leaves=30000000):
             n2a, n2b, r2 = run(ca, cb)
             st['runs'] += 1
             if n2a < len(ca) or n2b < len(cb):
-                raise RuntimeError('harness: run consumed (%d,%d) coins, fewer than the forced prefix (%d,%d)' % (n2a, n2b, len(ca), len(cb)))
+                raise Harness('run consumed (%d,%d) coins, fewer than the forced prefix (%d,%d)' % (n2a, n2b, len(ca), len(cb)))
             if max_a is not None and n2a > max_a:
                 st['truncated'] += 1
                 st['mass_truncated'] += one >> (len(ca) + len(cb))
                 continue
             stack.append((ca, cb, n2a, n2b, r2))
     if st['mass_leaves'] + st['mass_truncated'] != root_mass:
-        raise RuntimeError('harness: leaf mass + truncated mass != root mass (coin tree not a partition)')
+        raise Harness('leaf mass + truncated mass != root mass (coin tree not a partition)')
 
 
 def _residual(st, rootA=(), rootB=()):
@@ -124,7 +128,7 @@ def _numpy_guard_begin():
 
 def _numpy_guard_end(what):
     if rng.consumed()[1] != 0:
-        raise RuntimeError('harness: %s drew python-level numpy coins although only the numba stream was scripted' % what)
+        raise Harness('%s drew python-level numpy coins although only the numba stream was scripted' % what)
 
 
 def bits(k, n):
@@ -200,7 +204,7 @@ def _uniform_report(by_class, expected):
     """by_class: {class: Counter(key->leaves)}.  Returns (ok, description list)."""
     ok = True
     desc = []
-    for cls in sorted(by_class, key=str):
+    for cls in sorted(by_class, key=lambda c: c if isinstance(c, tuple) else (c,)):
         cnt = by_class[cls]
         keys = set(cnt)
         missing = len(expected - keys)
@@ -345,7 +349,7 @@ def fn_uniform(items):
             signs_seen = set()
             for a, b, res in explore2(run_both(lambda: _map_result(f(N))), st, rootB=rootB, max_a=base + max_extra):
                 if len(b) != 2 * N:
-                    raise RuntimeError('harness: %s(%d) consumed %d numpy coins on one leaf; the decomposition by sign string does not apply' % (name, N, len(b)))
+                    raise Harness('%s(%d) consumed %d numpy coins on one leaf; the decomposition by sign string does not apply' % (name, N, len(b)))
                 n += 1
                 nt += 1
                 by[len(a)][res[0]] += 1
@@ -359,7 +363,7 @@ def fn_uniform(items):
                               '%s(%d): with sign coins %s fixed, %d different sign vectors occur over the pair-coin tree' % (name, N, list(rootB), len(signs_seen)),
                               sorted(signs_seen)[:4], 'one sign vector'))
         else:
-            raise RuntimeError('unknown mode %r' % (mode,))
+            raise Harness('unknown mode %r' % (mode,))
         if invalid is not None:
             viol.append(V('C16/valid/%s/N%d/invalid-map' % (name, N), item,
                           '%s(%d) under numba coins %s, numpy coins %s returns an invalid map (table not symplectic or phase not Hermitian): signs=%s' % (
@@ -463,7 +467,7 @@ def fn_n3(items):
                           desc, '%d distinct tables, equally often in each class' % nexp))
             continue
         if any(g1c) and row0 != {g1c}:
-            raise RuntimeError('harness: decomposition assumption broken: tables below first draw %s do not all have row 0 = g1 '
+            raise Harness('decomposition assumption broken: tables below first draw %s do not all have row 0 = g1 '
                                '(the per-subtree uniformity results cannot be combined)' % (list(g1c),))
         extra['N3_distinct_tables'] = extra.get('N3_distinct_tables', 0) + len(allkeys)
         if not samples:
@@ -501,8 +505,6 @@ def fn_states(items):
             n += 1
             nt += 1
             bad = stab.state_check(state, N)
-            if not bad and kind != 'bit' and int(state.r) != (0 if r < 0 else r):
-                bad = 'r=%r, requested %r' % (state.r, r)
             if bad and first is None:
                 first = (list(a), list(b), bad)
             if not bad:
@@ -528,19 +530,19 @@ def _mk_circuit(name, N):
         return pc.onsite_rcc(N)
     if name == 'global_rcc':
         return pc.global_rcc(N)
-    raise RuntimeError(name)
+    raise Harness(name)
 
 
 def fn_circuits(items):
-    """item = [name, N, direction, prefixA, max_extra]: circuit constructor applied (forward / backward) to
-    zero_state(N) under every coin string below the numba prefix; every leaf a valid pure tableau."""
+    """item = [name, N, direction, prefixA, prefixB, max_extra]: circuit constructor applied (forward / backward) to
+    zero_state(N) under every coin string below the numba prefix / numpy (sign coin) prefix; every leaf a valid
+    pure tableau."""
     n = nt = 0
     viol = []
     keys = set()
     extra = {}
     for item in items:
-        name, N, dirn, prefixA, max_extra = item
-        ngates = N if name == 'onsite_rcc' else 1
+        name, N, dirn, prefixA, prefixB, max_extra = item
         base = 4 * N if name == 'onsite_rcc' else _base_coins('clifford', N)
 
         def body():
@@ -551,11 +553,9 @@ def fn_circuits(items):
 
         st = {}
         first = None
-        for a, b, state in explore2(run_both(body), st, rootA=tuple(prefixA), max_a=base + max_extra):
+        for a, b, state in explore2(run_both(body), st, rootA=tuple(prefixA), rootB=tuple(prefixB), max_a=base + max_extra):
             n += 1
             nt += 1
-            if len(b) != 2 * N and first is None and name != 'onsite_rcc':
-                first = (list(a), list(b), 'consumed %d sign coins, expected %d' % (len(b), 2 * N))
             bad = stab.state_check(state, N)
             if not bad and int(state.r) != 0:
                 bad = 'rank changed to r=%r' % (state.r,)
@@ -613,6 +613,14 @@ def fn_resample(items):
             return (c1, (tkey(o1.gs), skey(o1.ps)), (tkey(o2.gs), skey(o2.ps)))
 
         st = {}
+        rng.script((), ())
+        c1, m1, m2 = body()
+        if rng.consumed() == c1:
+            viol.append(V('C16/resample/%s/second-call-draws-no-coins' % dirn, item,
+                          'CliffordGate(%s): the second %s() of the same map-less gate consumed no coin (the sampled map is not resampled): '
+                          'drawn maps have signs %s / %s and equal tables: %s' % (','.join(map(str, range(N))), dirn, m1[1], m2[1], m1[0] == m2[0])))
+            n += 1
+            continue
         if mode == 'pairs':
             rootA, rootB = (), ()
             max_a = 2 * base + max_extra
@@ -680,7 +688,7 @@ class _TorchCoins(object):
 
     def __call__(self, *args, **kw):
         if len(args) != 3 or args[0] != 0 or args[1] != 2 or set(kw) - {'device'}:
-            raise RuntimeError('harness: unexpected torch.randint call %r %r' % (args, kw))
+            raise Harness('unexpected torch.randint call %r %r' % (args, kw))
         size = tuple(int(s) for s in args[2])
         cnt = 1
         for s in size:
@@ -710,13 +718,28 @@ def _t_table(x):
     return tkey(lib.t2n(x))
 
 
+def _show(res):
+    """human-readable form of a leaf result (table key / (table key, signs) / pair of arrays)."""
+    def tab(k):
+        if isinstance(k, tuple) and len(k) == 2 and isinstance(k[1], bytes):
+            return np.frombuffer(k[1], dtype=np.uint8).reshape(k[0]).tolist()
+        return repr(k)
+    if isinstance(res, tuple) and len(res) == 2 and isinstance(res[0], tuple) and len(res[0]) == 2 and isinstance(res[0][1], bytes):
+        return {'table': tab(res[0]), 'signs': list(res[1])}
+    if isinstance(res, tuple) and len(res) == 2 and isinstance(res[1], bytes):
+        return tab(res)
+    if isinstance(res, tuple) and all(isinstance(x, np.ndarray) for x in res):
+        return [x.tolist() for x in res]
+    return repr(res)
+
+
 def fn_torch(items):
-    """item = [fn, N, max_extra].  torchclifford samplers under every scripted torch.randint stream.
-    random_pair: anticommuting pair, g1 != 0, all pairs equally often.  random_pauli: valid product table, all 6^N
-    equally often.  random_clifford: valid symplectic table, all |Sp(2N,2)| equally often.  random_clifford_map /
-    random_pauli_map: valid map; N=1: all 24 maps equally often; N=2: per table leaf the last 2N coins give every sign
-    pattern once (uniformity of the table part is decided on random_clifford / random_pauli so that one root cause
-    has one signature)."""
+    """item = [fn, N, max_extra, prefix].  torchclifford samplers under every scripted torch.randint stream below
+    `prefix`.  random_pair: anticommuting pair, g1 != 0, all pairs equally often.  random_pauli: valid product table,
+    all 6^N equally often.  random_clifford: valid symplectic table, all |Sp(2N,2)| equally often.
+    random_clifford_map / random_pauli_map: valid map; N=1: all 24 maps equally often; N=2: conditional on the table
+    every Hermitian sign pattern equally often (uniformity of the table part is decided on random_clifford /
+    random_pauli, so that one root cause has one signature)."""
     m = lib.torch_mods()
     tu, tst = m['tu'], m['tst']
     n = nt = 0
@@ -724,11 +747,12 @@ def fn_torch(items):
     extra = {}
     samples = []
     for item in items:
-        fn, N, max_extra = item
+        fn, N, max_extra, prefix = item
         st = {}
         by = collections.defaultdict(collections.Counter)
         invalid = None
         crash = None
+        ismap = fn in ('random_clifford_map', 'random_pauli_map')
         if fn == 'random_pair':
             G = ref.all_g(N)
             A = ref.anti_mat(G)
@@ -743,7 +767,7 @@ def fn_torch(items):
             expected = clifford_tables(N)
             body = lambda: _t_table(tu.random_clifford(N))
             base = _base_coins('clifford', N)
-        elif fn in ('random_clifford_map', 'random_pauli_map'):
+        elif ismap:
             kind = fn.split('_')[1]
             tabs = _expected_tables(kind, N)
             sgn = sign_keys(2 * N)
@@ -754,21 +778,21 @@ def fn_torch(items):
                 return (_t_table(mp.gs), skey(lib.t2n(mp.ps)))
             base = _base_coins(kind, N) + 2 * N
         else:
-            raise RuntimeError(fn)
+            raise Harness(fn)
         valid_tabs = clifford_tables(N)
         sgn_all = sign_keys(2 * N)
         try:
-            for a, b, res in explore2(run_torch(body), st, max_a=base + max_extra):
+            for a, b, res in explore2(run_torch(body), st, rootA=tuple(prefix), max_a=base + max_extra):
                 n += 1
                 nt += 1
                 if fn == 'random_pair':
                     g1, g2 = res
                     if g1.shape != (2 * N,) or g2.shape != (2 * N,) or g1.dtype.kind != 'i' or g2.dtype.kind != 'i':
-                        k = ('bad', str(res))
+                        k = ('bad', repr(res))
                     else:
                         k = (int(ref.gindex(g1)), int(ref.gindex(g2)))
                     okv = k in expected
-                elif fn in ('random_pauli', 'random_clifford'):
+                elif not ismap:
                     k = res
                     okv = k in valid_tabs
                 else:
@@ -777,31 +801,46 @@ def fn_torch(items):
                 if not okv and invalid is None:
                     invalid = (list(a), res)
                 by[len(a)][k] += 1
-        except RuntimeError:
+        except Harness:
             raise
         except Exception as e:
             crash = '%s: %s' % (type(e).__name__, e)
         if crash is not None:
             viol.append(V('C16/torch/%s/raises' % fn, item, 'torchclifford %s(%d) raised %s' % (fn, N, crash)))
             continue
-        ok, desc = _uniform_report(by, expected)
+        extra['torch_%s_N%d_leaves' % (fn, N)] = extra.get('torch_%s_N%d_leaves' % (fn, N), 0) + st['leaves']
+        extra['torch_%s_N%d_truncated_subtrees' % (fn, N)] = extra.get('torch_%s_N%d_truncated_subtrees' % (fn, N), 0) + st['truncated']
         if invalid is not None:
             if fn in ('random_pauli', 'random_pauli_map') and N >= 2:
                 sig = 'C16/torch/%s/invalid-zero-row' % fn
-                msg = ('torchclifford %s(%d) under coins %s returns an invalid map (an all-zero / non-anticommuting X,Z image pair): random_pair(1, L=N) '
+                msg = ('torchclifford %s(%d) under coins %s returns an invalid map (an all-zero / commuting X,Z image pair): random_pair(1, L=N) '
                        'rejects g1 only when ALL rows are zero' % (fn, N, invalid[0]))
             else:
                 sig = 'C16/torch/%s/invalid' % fn
                 msg = 'torchclifford %s(%d) under coins %s returns an invalid result' % (fn, N, invalid[0])
-            obs = invalid[1]
-            if isinstance(obs, tuple) and len(obs) == 2 and isinstance(obs[0], tuple) and len(obs[0]) == 2 and isinstance(obs[0][1], bytes):
-                obs = {'table': np.frombuffer(obs[0][1], dtype=np.uint8).reshape(obs[0][0]).tolist(), 'signs': list(obs[1])}
-            elif isinstance(obs, tuple) and len(obs) == 2 and isinstance(obs[1], bytes):
-                obs = np.frombuffer(obs[1], dtype=np.uint8).reshape(obs[0]).tolist()
-            else:
-                obs = repr(obs)
-            viol.append(V(sig, item, msg, obs, 'valid (CCR, Hermitian phases)'))
-        elif not ok:
+            viol.append(V(sig, item, msg, _show(invalid[1]), 'valid (CCR, Hermitian phases)'))
+            continue
+        if ismap and N >= 2:
+            # conditional on the table: every sign pattern equally often
+            okc = True
+            descc = []
+            for cls, cnt in sorted(by.items()):
+                per = collections.defaultdict(collections.Counter)
+                for (t, sg), c in cnt.items():
+                    per[t][sg] += c
+                for t, sc in per.items():
+                    if set(sc) != set(sgn_all) or len(set(sc.values())) != 1:
+                        okc = False
+                        descc.append({'coins': cls, 'table': _show(t), 'sign_patterns_seen': len(sc), 'counts': sorted(set(sc.values()))})
+                        break
+            if not okc:
+                viol.append(V('C16/torch/%s/signs-not-fair' % fn, item,
+                              'torchclifford %s(%d): conditional on the table the Hermitian sign patterns are not drawn equally often' % (fn, N), descc[:3]))
+            if len(samples) < 2:
+                samples.append({'torch': fn, 'N': N, 'prefix': list(prefix), 'leaves': st['leaves'], 'residual_mass': _residual(st, rootA=tuple(prefix))})
+            continue
+        ok, desc = _uniform_report(by, expected)
+        if not ok:
             prod_only = False
             if fn == 'random_clifford' and N == 2:
                 seen = set()
@@ -816,10 +855,8 @@ def fn_torch(items):
                 sig = 'C16/torch/%s/not-uniform' % fn
                 msg = 'torchclifford %s(%d): group elements are not drawn equally often within a coin-length class' % (fn, N)
             viol.append(V(sig, item, msg, desc, 'every element equally often per class'))
-        extra['torch_%s_N%d_leaves' % (fn, N)] = st['leaves']
-        extra['torch_%s_N%d_truncated_subtrees' % (fn, N)] = st['truncated']
         if len(samples) < 2:
-            samples.append({'torch': fn, 'N': N, 'classes': desc[:3], 'residual_mass': _residual(st)})
+            samples.append({'torch': fn, 'N': N, 'classes': desc[:3], 'residual_mass': _residual(st, rootA=tuple(prefix))})
     return {'n': n, 'nt': nt, 'viol': viol, 'extra': extra, 'samples': samples}
 
 
@@ -858,7 +895,7 @@ def legs(tier):
                          'residual mass 4^-N per extra round'))
     # uniformity
     ex2 = 4 if quick else 8
-    items = [['clifford', 2, 'signbij', [list((FILL,) * 12), list(bits(0x5a3, 12)), [0, 0, 0, 0] + [1] * 6 + [0, 0] + [1, 0, 1, 1]], 0],
+    items = [['clifford', 2, 'signbij', [list((FILL,) * 12), list(bits(0x5a7, 12)), [0, 0, 0, 0] + [1] * 6 + [0, 0] + [1, 0, 1, 1]], 0],
              ['clifford', 1, 'joint', None, 6], ['pauli', 1, 'joint', None, 6], ['pauli', 2, 'joint', None, 4 if quick else 6]]
     items += [['clifford', 2, 'signfixed', k, ex2] for k in range(16)]
     out.append(Leg('uniform_maps', fn_uniform, items, chunk=1, src_states=24 + 11520 + 24 + 576,
@@ -871,45 +908,53 @@ def legs(tier):
             for r in [-1] + list(range(N + 1)):
                 bl = range(4 ** N)
                 if quick and N == 2 and kind == 'clifford':
-                    bl = (0, 6, 9, 15)
+                    bl = (6, 9) if r in (-1, 1) else (0, 15)
                 for k in bl:
                     sitems.append([kind, N, r, k, 4])
     out.append(Leg('states', fn_states, sitems, chunk=1,
                    bound='random_bit_state N<=3 all coin strings; random_{pauli,clifford}_state(N<=2, r in default,0..N): whole pair-coin tree (+4 coins) x '
-                         + ('4 of 16 sign strings at N=2 clifford (all elsewhere)' if quick else 'all sign strings')))
+                         + ('2 of 16 sign strings per r at N=2 clifford (all elsewhere)' if quick else 'all sign strings')))
     # circuits
     citems = []
     for dirn in ('forward', 'backward'):
-        citems.append(['onsite_rcc', 1, dirn, [], 4])
-        citems.append(['global_rcc', 1, dirn, [], 4])
+        citems.append(['onsite_rcc', 1, dirn, [], [], 4])
+        citems.append(['global_rcc', 1, dirn, [], [], 4])
+    ex = 0 if quick else 4
     for dirn in ('forward', 'backward'):
-        for name in ('onsite_rcc',):
-            for p in itertools.product((0, 1), repeat=2):
-                citems.append([name, 2, dirn, list(p), 4])
-        for name in ('global_rcc', 'brickwall_rcc'):
-            for p in itertools.product((0, 1), repeat=3):
-                citems.append([name, 2, dirn, list(p), 2 if quick else 4])
+        for p in itertools.product((0, 1), repeat=2):
+            citems.append(['onsite_rcc', 2, dirn, list(p), [], 4])
+        for k in range(16):
+            citems.append(['global_rcc', 2, dirn, [], list(bits(k, 4)), ex])
+        for k in ((1, 6, 11, 12) if quick else range(16)):
+            citems.append(['brickwall_rcc', 2, dirn, [], list(bits(k, 4)), ex])
     out.append(Leg('circuits', fn_circuits, citems, chunk=1,
                    bound='brickwall_rcc(2,1), onsite_rcc(N<=2), global_rcc(N<=2) forward and backward on zero_state: every coin string (pair coins and '
-                         'sign coins), rejection bounded to +%d coins for the 2-qubit gate, +4 otherwise' % (2 if quick else 4)))
+                         'sign coins); 2-qubit gate: ' + ('rejection-free pair coins (mass 0.70), all 16 sign strings for global_rcc, 4 of 16 for brickwall_rcc '
+                                                          '(same single gate on qubits 0,1)' if quick else 'rejection bounded to +4 coins, all sign strings')
+                         + '; 1-qubit gates: +4 coins'))
     # resampling
-    ritems = [[1, 'forward', 'pairs', None, 4], [1, 'backward', 'pairs', None, 4]]
+    ritems = [[1, 'forward', 'pairs', None, 0], [1, 'forward', 'pairs', None, 4], [1, 'backward', 'pairs', None, 4]]
     for dirn in ('forward', 'backward'):
-        for k in ((3, 12) if quick else range(16)):
+        for k in (((3,) if dirn == 'forward' else (12,)) if quick else range(16)):
             ritems.append([2, dirn, 'second', k, 2 if quick else 4])
     out.append(Leg('resample', fn_resample, ritems, chunk=1,
                    bound='map-less CliffordGate applied twice: N=1 all pairs of coin segments (+4 coins); N=2 first call fixed, second call whole '
-                         'tree for %s sign strings' % ('2 of 16' if quick else 'all 16')))
+                         'tree (+%d coins) for %s sign strings' % (2 if quick else 4, '1 of 16 per direction' if quick else 'all 16')))
     if not quick:
         n3 = [[[0, 0, 0, 0, 0, 0], 4]] + [[list(bits(k, 6)), 4] for k in range(1, 64)]
         out.append(Leg('uniform_N3_tables', fn_n3, n3, chunk=1, src_states=dom.SP_ORDER[3], timeout=3000,
                        bound='random_clifford(3), symplectic part: all coin strings of 24, 26, 28 coins (rejection of the 3-qubit pair itself, +6 coins, '
                              'is beyond the bound: residual mass 1/64 + inner rejections ~3.3e-2)'))
     # torch
-    titems = [['random_pair', 1, 4], ['random_pair', 2, 4], ['random_pauli', 1, 4], ['random_pauli', 2, 4],
-              ['random_clifford', 1, 4], ['random_clifford_map', 1, 4], ['random_pauli_map', 1, 4],
-              ['random_pauli_map', 2, 0 if quick else 2], ['random_clifford', 2, 2 if quick else 4]]
+    titems = [['random_pair', 1, 4, []], ['random_pair', 2, 4, []], ['random_pauli', 1, 4, []], ['random_pauli', 2, 4, []],
+              ['random_clifford', 1, 4, []], ['random_clifford_map', 1, 4, []], ['random_pauli_map', 1, 4, []],
+              ['random_pauli_map', 2, 0 if quick else 2, []], ['random_clifford', 2, 2 if quick else 4, []]]
     out.append(Leg('torch', fn_torch, titems, chunk=1,
                    bound='torchclifford samplers through the scripted torch.randint seam: N=1 all streams (+4 coins), N=2 random_pair/random_pauli (+4), '
                          'random_clifford(2) (+%d), random_pauli_map(2) (+%d)' % (2 if quick else 4, 0 if quick else 2)))
+    t2 = [['random_clifford_map', 2, 0 if quick else 2, list(bits(k, 4))] for k in ((1, 6, 7, 11, 12) if quick else range(1, 16))]
+    out.append(Leg('torch_map_N2', fn_torch, t2, chunk=1, exhaustive=not quick, supplementary=quick,
+                   bound='torchclifford random_clifford_map(2): validity and conditional sign fairness on every stream below '
+                         + ('5 of the 15 possible first draws g1 (capped in quick)' if quick else 'each of the 15 first draws g1')
+                         + ', rejection bounded to +%d coins' % (0 if quick else 2)))
     return out
